@@ -16,8 +16,8 @@
 -/
 import Driver.ProtoMesh
 import FcModel.Spec.C06
-namespace Fc.Drv
-open Fc
+namespace Fc.Drv.C06
+open Fc Fc.C06
 
 def showDType : DType → String
   | .flt F => if F == f64 then "f64" else if F == f32 then "f32" else "f16"
@@ -111,4 +111,6 @@ def handleC06 (op : String) : Option (P String) :=
   | "c06pr" => some opC06pr
   | _ => none
 
-end Fc.Drv
+end Fc.Drv.C06
+
+def Fc.Drv.handleC06 := Fc.Drv.C06.handleC06
